@@ -536,7 +536,7 @@ func chunks(l Lang, text string) []string {
 				depth--
 			}
 		}
-		atLineStart = t.Kind == Space && strings.HasSuffix(t.Text, "\n") || t.Kind == Comment && false
+		atLineStart = t.Kind == Space && strings.HasSuffix(t.Text, "\n")
 	}
 	if cur.Len() > 0 {
 		out = append(out, cur.String())
